@@ -3,6 +3,20 @@ import hashlib, importlib, json, os, sys, time, traceback
 from . import extract, mir
 from .mir import AnchorLost
 
+import builtins
+
+
+def print(*a, **kw):  # noqa: A001 - tolerate a closed stdout (e.g. `| head`): the verdict is the exit code
+    try:
+        builtins.print(*a, **kw)
+        sys.stdout.flush()
+    except BrokenPipeError:
+        try:
+            sys.stdout = open(os.devnull, "w")
+        except Exception:
+            pass
+
+
 VERIF = extract.VERIF
 EVID = os.path.join(VERIF, "evidence")
 KNOWN = os.path.join(VERIF, "known_findings.json")
